@@ -51,7 +51,8 @@ def generator(ir: ExpressionIR, options: dict[str, int | float | npt.DTypeLike])
     body = format(parts)
     body = "\n".join(["    " + line for line in body.split("\n")])
 
-    d["tabulate_expression"] = header + body
+    # The header ends inside an indented line: drop that indentation, the body brings its own
+    d["tabulate_expression"] = header.rstrip(" ") + body
 
     # TODO: original_coefficient_positions_init
     originals = ", ".join(str(i) for i in ir.original_coefficient_positions)
